@@ -194,7 +194,9 @@ def run(case, ctx):
         except BaseException as e:  # noqa: BLE001
             if behave._is_ctl(e):
                 raise
-            ctx.skip("import_failed")
+            # every cell is in the property's domain: a package that cannot be imported keeps none of the three states observable
+            ctx.violation("package.imports", {"pos": "model" if model_cells else "params", "exc": type(e).__name__,
+                                              "required_with_default": any(c["required"] and c["default"] for c in cells)}, repr(e)[:300])
             return
         with pkg:
             if model_cells:
